@@ -320,7 +320,7 @@ func layoutAgreementRule(c *Ctx, r *Result, rule, what, writerName string, reade
 			n++
 			we, re := wl[f], rl[f]
 			ok := we.off == re.off && (we.width == re.width || we.width == "" || re.width == "")
-			if !ok && layoutRename == nil {
+			if !ok && layoutRename == nil && (multiVersionParser[rn] || fixed8Writer[writerName]) {
 				// a parser for several versions: one of its stores of the field matches, with the 8-byte sizes the writers produce
 				for _, cand := range ra[f] {
 					if at8(we.off) == at8(cand.off) && at8(we.off) != "" && (at8(we.width) == at8(cand.width) || we.width == "" || cand.width == "") {
@@ -391,6 +391,9 @@ func layoutAgreementRule(c *Ctx, r *Result, rule, what, writerName string, reade
 }
 
 var layoutCollectBlk func(string, layoutEntry, *ssa.BasicBlock)
+
+// writers that produce 8-byte offsets and lengths only (the parser's sizes are compared at 8)
+var fixed8Writer = map[string]bool{"structures.serializeChunkBTreeNode": true, "structures.BTreeNodeV1.WriteAt": true, "core.Superblock.writeV0": true, "core.Superblock.writeV2": true}
 
 // parsers that serve several versions of a structure in one function
 var multiVersionParser = map[string]bool{"core.ReadSuperblock": true}
